@@ -330,6 +330,8 @@ def ra_docs(tier, rng):
                 kw2[k] = rng.choice(stanza_sets[k])
             tables.append(C.table(**dict(kw2, name="wan0")))
             tables.append(C.table(name="mon0", monitor=True, advertise=False))
+            if rng.random() < 0.5:      # an interface that is configured but does nothing, before / between the active ones
+                tables.insert(rng.choice([0, 1]), C.table(name="idle0", advertise=False))
         docs.append(C.document(tables))
     states = sys_states(rng, 40)
     vecs = []
